@@ -435,17 +435,17 @@ static int tx_cb(int hook, htp_tx_t *tx) {
         int side = hook == HK_REQUEST_COMPLETE ? 0 : 1;
         r->eob_before_complete[side] = r->eob[side];
         // C06 accounting half (all inputs): reported entity length == body bytes handed to callbacks
-        int64_t el = side == 0 ? tx->request_entity_len : tx->response_entity_len;
-        if (!r->cb_nonok[side] && !r->cb_declined_body[side] && el != r->body_seen[side])
-            violate(ex, "C06", side ? "C06.response_entity_len_vs_delivered" : "C06.request_entity_len_vs_delivered",
-                    strfmt("tx#%d entity_len=%lld delivered=%lld", r->ordinal, (long long) el, (long long) r->body_seen[side]));
-        // ... and a message whose body was delivered gets the end-of-body marker before its completion callback (bytes handed
-        // over by the lenient "treat as body" paths belong to a message that has no body by its framing: outside the statement)
         // A gap in a request body that one of libhtp's own body parsers (multipart, urlencoded: body-data callbacks like any other,
         // run before the configuration-level ones) is consuming ends that parser - NULL data is its end signal - and it then refuses
         // the real end-of-body call with HTP_ERROR, so later callbacks do not see it: a body callback returning non-OK, i.e. the
         // same exemption as for the scripted callbacks.
         bool parser_refused_after_gap = side == 0 && r->body_gap[0] > 0 && (tx->request_mpartp != NULL || tx->request_urlenp_body != NULL);
+        int64_t el = side == 0 ? tx->request_entity_len : tx->response_entity_len;
+        if (!r->cb_nonok[side] && !r->cb_declined_body[side] && !parser_refused_after_gap && el != r->body_seen[side])
+            violate(ex, "C06", side ? "C06.response_entity_len_vs_delivered" : "C06.request_entity_len_vs_delivered",
+                    strfmt("tx#%d entity_len=%lld delivered=%lld", r->ordinal, (long long) el, (long long) r->body_seen[side]));
+        // ... and a message whose body was delivered gets the end-of-body marker before its completion callback (bytes handed
+        // over by the lenient "treat as body" paths belong to a message that has no body by its framing: outside the statement)
         if (!r->cb_nonok[side] && !r->cb_declined_body[side] && r->body_seen[side] > 0 && r->eob[side] == 0 && r->lenient_site[side].empty() && !parser_refused_after_gap)
             violate(ex, "C06", side ? "C06.response_no_end_of_body_marker" : "C06.request_no_end_of_body_marker",
                     strfmt("tx#%d delivered=%lld seq=%s", r->ordinal, (long long) r->body_seen[side], r->cbseq_full.c_str()));
